@@ -1114,7 +1114,7 @@ def c19(ctx):
     # allocation balance at every eav_free, outcome equal to a fresh object after every failure
     suite_random_histories(ctx, 20 if ctx.quick() else 200, 200)
     if not ctx.quick():     # every libidn2 code in the model (full pool), and longer fault-free histories around the failures
-        tlc_ok(ctx, "MC_Eav", EAV_CFG % ("idn2", 0, "TRUE", "FALSE"), timeout=6000)
+        tlc_ok(ctx, "MC_Eav", EAV_CFG % ("idn2", 0, '"all"', "TRUE"), timeout=6000)
     return finish(ctx, "fault_enumeration",
                   "every libidn2 return code (31) injected at every conversion call of every history (TLC state graph with the converter as "
                   "nondeterministic environment); histories of MaxHist calls with a fault plan replayed with the converter replaced at link "
